@@ -119,15 +119,23 @@ def check_c12(tier, only_cases=None):
     trace = os.path.join(wd, "c12.trace")
     run_harness("wire", ["c12", cpath], trace)
     stats, viols = validate_trace("WireTrace", trace, prop, f"{prop}-{tier}", TRACE_CFG, nchunks=2, independent=True)
+    agent = {}
+    if only_cases is None:
+        # "usable with a conforming server", over the real transports: the agent against a router that implements NETCONF
+        # 1.1 too and frames as RFC 6242 requires for whatever the two hellos negotiate
+        import check_agent
+        agent = check_agent.side_run(prop, tier, verdict, any_rule=True)
     return finish(prop, tier, t0, verdict, stats, viols, gr,
-                  {"samples": [cases[0], cases[len(cases) // 2], cases[-1]], "hello_cases": len(cases), "exhaustive": True,
+                  {"agent_against_a_router_with_netconf_1.1": agent, "samples": [cases[0], cases[len(cases) // 2], cases[-1]], "hello_cases": len(cases), "exhaustive": True,
                    "rule": "server hellos: every subset of {base:1.0, base:1.1} x 9 session-id shapes x default/prefixed namespace x hello "
                            "before/after the client's own, plus malformed hellos; each fed to a real Session establishment over the "
                            "in-memory transport; TLC checks established <=> (well-formed, valid id, common base version with what the client "
                            "really advertised), highest common version, reported id/capabilities, and the framing of the first request "
                            "against RFC 6242 4.1; non-trivial = session established"},
                   ["in-memory transport delivers whole messages, so only the client's outgoing framing is observable here; "
-                   "the conforming-server part over real transports is part of the C06/C07 driver"],
+                   "over the real transports (TLS, local cli child) the agent runs against a fake router that advertises :base:1.0 and :base:1.1 and "
+                   "uses chunked framing (chunks of 1, 7 and the remaining bytes, a line of ## inside the data) exactly when the client's hello "
+                   "advertised :base:1.1 as well"],
                   lambda k: cases[k] if isinstance(k, int) and k < len(cases) else None, trace)
 
 # ------------------------------------------------------------------------------------------
